@@ -33,6 +33,26 @@ def check(run):
         mal, err = fc.run_harness(run, "malformed", m, ["thorough"] if run.tier == "thorough" else [])
         if err:
             broken.append(err)
+    # hand-written specification-formatted frames the encoder never emits (aliases, alternative legal encodings)
+    sb = []
+    if "harness" not in fails:
+        sb, err = fc.run_harness(run, "specbytes", 0)
+        if err:
+            broken.append(err)
+        if not sb and not err:
+            broken.append("harness-frame specbytes printed no record")
+    sbcases = []
+    for r in sb:
+        if r.get("expect_error"):
+            if r.get("decode") != "err":
+                findings.append({"id": r["id"], "kind_of_failure": "spec-bytes-decode", "name": r.get("name"), "bytes": r.get("bytes"),
+                                 "what": "bytes the specification of version %s does not define (%s) were not refused: decode=%s" % (r.get("version"), r.get("name"), r.get("decode"))})
+            sbcases.append((r["id"], "Z.eqb (dec_class None %s) 1" % fc.hxs(r["bytes"])))
+        else:
+            if r.get("decode") != "ok" or r.get("equal") is not True:
+                findings.append({"id": r["id"], "kind_of_failure": "spec-bytes-decode", "name": r.get("name"), "bytes": r.get("bytes"),
+                                 "what": "specification-formatted bytes (%s) do not decode to the message they denote: decode=%s %s" % (r.get("name"), r.get("decode"), r.get("why", ""))})
+            sbcases.append((r["id"], "dec_eq None %s %s" % (fc.hxs(r["bytes"]), r["expected"])))
     valid = [r for r in recs if r.get("valid", True) and r.get("encode") == "ok" and r.get("deterministic")
              and (r.get("compression") == "none" or not (r.get("flags", 0) & 1))]
     sel, skipped = fc.select_records(valid, run.tier)
@@ -72,14 +92,16 @@ def check(run):
                                  "what": "DecodeHeader %s a header the specification %s (version byte / opcode / direction)" % (
                                      "accepts" if r.get("outcome") == "ok" else "rejects", "rejects" if r.get("outcome") == "ok" else "accepts")})
     if pr["ok"] and (cases or hcases):
-        mism, cerr = fc.eval_cases("Cases_C02", prelude, cases + hcases)
+        mism, cerr = fc.eval_cases("Cases_C02", prelude, cases + hcases + sbcases)
         if cerr:
             broken.append(cerr)
         else:
             byid = {r["id"]: r for r in sel}
             hb = {r["id"]: r for r in hdr}
             for cid in mism:
-                if cid in byid:
+                if cid.startswith("sb"):
+                    broken.append("correspondence: the model decodes the hand-written specification bytes %s differently from the expectation / the implementation" % cid)
+                elif cid in byid:
                     r = byid[cid]
                     f = fc.slim(r)
                     f.update({"kind_of_failure": "spec-bytes", "what": "frame %s v%s flags=%s: the bytes emitted by the implementation differ from the "
@@ -94,7 +116,7 @@ def check(run):
         nm, cerr2 = fc.eval_cases("Cases_C02n", prelude, ncases)
         compared = len(ncases) - len(nm) if not cerr2 else 0
     c = run.coverage
-    c["evaluations"] = len(cases) + len(hcases)
+    c["evaluations"] = len(cases) + len(hcases) + len(sbcases)
     c["traces_validated_against_impl"] = compared + len(hcases)
     c["distinct_nontrivial"] = len({r.get("bytes") for r in sel})
     c["rule"] = ("bytes emitted by the real EncodeFrame for generated version-valid frames (deterministic ones: no map with >= 2 entries) compared inside coqc "
@@ -104,4 +126,5 @@ def check(run):
     c["frames_with_spec_layout_compared"] = compared
     c["frames_without_spec_layout"] = len(ncases) - compared
     c["header_cases"] = len(hcases)
+    c["hand_written_spec_frames"] = len(sb)
     fc.verdict(run, "C02", findings, broken, "harness-frame gen with VERIF_SEED=%d reproduces the record by id; compare `bytes` with spec_frame_of in coq/proofs/SpecAgree.v" % run.seed)
